@@ -475,6 +475,12 @@ Definition absorb (withlen : bool) (f : frame) (r : list Z) : frame :=
     | _ => f
     end.
 
+Definition is_close (f : frame) : bool :=
+  match f with CloseConn _ _ _ | CloseApp _ _ => true | _ => false end.
+
+Definition close_reason (f : frame) : list Z :=
+  match f with CloseConn _ _ r | CloseApp _ r => r | _ => [] end.
+
 (** What [Close::encode(max_len)] keeps of the frame. *)
 Definition truncate_close (n : Z) (f : frame) : frame :=
   match f with
@@ -505,6 +511,29 @@ Fixpoint sorted_asc (lo : Z) (rs : list (Z * Z)) : bool :=
   end.
 
 Definition incl_range (r : Z * Z) : Z * Z := (fst r, snd r - 1).
+
+Definition wf_ecn (ecn : option (Z * Z * Z)) : bool :=
+  match ecn with
+  | Some (a, b, c) => in62 a && in62 b && in62 c
+  | None => true
+  end.
+
+(** The three [IterErr]s. *)
+Definition is_err (e : Z) : Prop := e = E_END \/ e = E_ID \/ e = E_MALFORMED.
+
+(** An inclusive range below [bound] with a gap: [0 <= lo <= hi] and [hi + 1 < bound]. *)
+Definition range_ok (bound : Z) (p : Z * Z) : Prop := 0 <= fst p <= snd p /\ snd p + 1 < bound.
+
+(** Concatenated encodings (STREAM / DATAGRAM with length). *)
+Fixpoint encode_all (max_len : Z) (fs : list frame) : option (list Z) :=
+  match fs with
+  | [] => Some []
+  | f :: tl =>
+      match encode_frame true max_len f, encode_all max_len tl with
+      | Some a, Some b => Some (a ++ b)
+      | _, _ => None
+      end
+  end.
 
 (** * Integer interface shared with the hook [verif_hooks::frames] *)
 Definition lbytes (d : list Z) : list Z := zlen d :: d.
